@@ -188,6 +188,11 @@ class StringInterp(AbsInt):
                 spec = ""
                 if v.format_spec is not None:
                     spec = "".join(x.value for x in v.format_spec.values if isinstance(x, ast.Constant))
+                if not spec and v.conversion == -1:
+                    known = self.strings(v.value, st) if isinstance(v.value, (ast.Name, ast.Attribute)) else None
+                    if known is not None and len(known) == 1:
+                        segs.extend(next(iter(known)))           # a local holding a prefix (or another modelled string), spliced in as it is
+                        continue
                 if isinstance(v.value, ast.Name) and v.value.id in self.p.settings and isinstance(self.p.settings[v.value.id], int):
                     segs.append(("lit", format(self.p.settings[v.value.id], spec)))
                     continue
@@ -207,6 +212,9 @@ class StringInterp(AbsInt):
         m = enum_member(e, "TokenisationPrefixes")
         if m is not None and attr_chain(e)[-1] == "value":
             return frozenset([(("pre", m),)])
+        if isinstance(e, ast.Attribute) and e.attr == "value" and isinstance(e.value, ast.Name) and isinstance(st.get(e.value.id), tuple) \
+                and st[e.value.id] and st[e.value.id][0] == "$members":
+            return frozenset((("pre", m_),) for m_ in st[e.value.id][1])       # loop variable over a tuple of prefix members
         if isinstance(e, ast.BinOp) and isinstance(e.op, ast.Add):
             a, b = self.strings(e.left, st), self.strings(e.right, st)
             if a is None or b is None:
@@ -267,6 +275,9 @@ class StringInterp(AbsInt):
             if isinstance(t, ast.Name) and isinstance(s.value, ast.List) and not s.value.elts and t.id not in self.out_lists \
                     and self._is_part_list(t.id):
                 st[t.id] = StrList([()])
+                return st
+            if isinstance(t, ast.Name) and self.members_of(s.value, st) is not None and not isinstance(s.value, ast.Name):
+                st[t.id] = ("$members", self.members_of(s.value, st))
                 return st
             if isinstance(t, ast.Name):
                 ss = self.strings(s.value, st)
@@ -357,7 +368,24 @@ class StringInterp(AbsInt):
             return (rb, ra) if neg else (ra, rb)
         return dict(st), dict(st)
 
+    def members_of(self, it: ast.AST, st):
+        """The prefix members a tuple / list expression (or a local bound to one) holds, else None."""
+        if isinstance(it, ast.Name) and isinstance(st.get(it.id), tuple) and st[it.id] and st[it.id][0] == "$members":
+            return st[it.id][1]
+        if isinstance(it, (ast.Tuple, ast.List)) and it.elts:
+            ms = [enum_member(x, "TokenisationPrefixes") if attr_chain(x) and attr_chain(x)[-1] != "value" else None for x in it.elts]
+            if all(ms):
+                return tuple(ms)
+        return None
+
     def for_bind(self, node, st):
+        it = node.iter
+        tgt = node.target
+        if isinstance(it, ast.Call) and isinstance(it.func, ast.Name) and it.func.id == "enumerate" and it.args and isinstance(tgt, ast.Tuple) and len(tgt.elts) == 2:
+            it, tgt = it.args[0], tgt.elts[1]
+        ms = self.members_of(it, st)
+        if ms is not None and isinstance(tgt, ast.Name):
+            st[tgt.id] = ("$members", ms)
         return st
 
 
